@@ -228,6 +228,17 @@ pub fn run_c04(seed: u64, n: usize, out: &mut Out) {
                 lines.extend(gen::cluster(&mut r, &o));
             }
         }
+        let mut scenario_url: Option<String> = None;
+        if r.pct(20) {
+            let (sl, su) = gen::partial_token_scenario(&mut r);
+            lines.extend(sl);
+            scenario_url = Some(su);
+        }
+        // rules of the general grammar ride along (token collisions, `||host*rest`, anchors): precedence and
+        // monotonicity are stated about the engine's verdict, so whatever loses a rule in a bucket shows here too
+        for _ in 0..r.below(4) {
+            lines.push(gen::rule(&mut r, &gen::RuleOpts { extra: true, full_regex: false }));
+        }
         // the extra rule x (not badfilter, no modifier)
         let xo = gen::ClusterOpts { csp: false, removeparam: false, redirect: false, badfilter: false, tags: true, exceptions: true, important: true };
         let x = {
@@ -253,6 +264,11 @@ pub fn run_c04(seed: u64, n: usize, out: &mut Out) {
                 u = r.pick(&["https://ads.example.net/x.js", "https://cdn.test/px", "https://cdn.test/adimg/a.png", "https://x.test/px.gif"]).to_string();
             }
             let s = if r.pct(40) { format!("https://{}/", r.pick(DOMS)) } else { s };
+            if let Some(su) = &scenario_url {
+                if r.pct(50) {
+                    u = su.clone();
+                }
+            }
             if !u.is_ascii() {
                 continue;
             }
@@ -327,6 +343,24 @@ pub fn run_c13(seed: u64, n: usize, out: &mut Out) {
         if r.pct(40) {
             lines.extend(gen::cluster(&mut r, &o));
         }
+        // bare `||host^` redirect rules (no type option: every request type, documents included), exceptions to
+        // them, and a competitor that names `document` explicitly
+        let mut bare_host: Option<String> = None;
+        if r.pct(35) {
+            let h = r.pick(&["cdn.test", "shop.test", "other.net"]).to_string();
+            let res = |r: &mut Rng| format!("{}{}", r.pick(&["a.js", "b.gif", "alias-a", "missing.js"]), r.pick(&["", ":5", ":-1", ":10"]));
+            lines.push(format!("||{}^$redirect={}", h, res(&mut r)));
+            if r.pct(50) {
+                lines.push(format!("||{}^$redirect-rule={}", h, res(&mut r)));
+            }
+            if r.pct(40) {
+                lines.push(format!("||{}^$document,redirect-rule={}", h, res(&mut r)));
+            }
+            if r.pct(25) {
+                lines.push(format!("@@||{}^$redirect-rule={}", h, r.pick(&["a.js", "b.gif", "alias-a"])));
+            }
+            bare_host = Some(h);
+        }
         let resources = if r.pct(30) { std_resources() } else { gen_store(&mut r) };
         let optimize = r.pct(50);
         let tags = vec![];
@@ -336,8 +370,12 @@ pub fn run_c13(seed: u64, n: usize, out: &mut Out) {
             continue;
         }
         let case = Case { lines: lines.clone(), optimize, tags };
-        for _ in 0..4 {
-            let (u, s, t) = gen::cluster_url(&mut r, &lines);
+        for k in 0..4 {
+            let (mut u, s, mut t) = gen::cluster_url(&mut r, &lines);
+            if let (true, Some(h)) = (k < 2, &bare_host) {
+                u = format!("https://{}/{}", h, r.pick(&["", "index.html", "x1"]));
+                t = r.pick(&["document", "script", "image", "subdocument"]).to_string();
+            }
             if !u.is_ascii() {
                 continue;
             }
